@@ -20,8 +20,8 @@ import (
 // (SHA-256 of the peer-ID bytes or of the key), never by repository code.
 type Kad [32]byte
 
-func KadOfPeer(p peer.ID) Kad  { return sha256.Sum256([]byte(p)) }
-func KadOfKey(key string) Kad  { return sha256.Sum256([]byte(key)) }
+func KadOfPeer(p peer.ID) Kad { return sha256.Sum256([]byte(p)) }
+func KadOfKey(key string) Kad { return sha256.Sum256([]byte(key)) }
 func (a Kad) Xor(b Kad) (d Kad) {
 	for i := range a {
 		d[i] = a[i] ^ b[i]
